@@ -21,6 +21,18 @@ use vcore::report::Report;
 fn main() {
     let args: Vec<String> = std::env::args().collect();
     let which = args.get(1).map(|s| s.as_str()).unwrap_or("");
+    // panics (of the code under test inside spawned tasks, or of the harness) are judged by the engines;
+    // print each distinct location once instead of once per execution
+    std::panic::set_hook(Box::new(|info| {
+        static SEEN: std::sync::Mutex<Vec<String>> = std::sync::Mutex::new(Vec::new());
+        let loc = info.location().map(|l| format!("{}:{}", l.file(), l.line())).unwrap_or_default();
+        let mut g = SEEN.lock().unwrap_or_else(|e| e.into_inner());
+        if !g.contains(&loc) {
+            let msg = info.payload().downcast_ref::<&str>().map(|s| s.to_string()).or_else(|| info.payload().downcast_ref::<String>().cloned()).unwrap_or_default();
+            eprintln!("panic at {}: {} (further panics at this location are not printed)", loc, msg);
+            g.push(loc);
+        }
+    }));
     let code = match which {
         "c17" => {
             let rep = Report::new("C17", "model_checking");
